@@ -673,3 +673,20 @@ SPECS += [
          params={}, extra_params={"applied": APPLIED}, ret="Dict[Obj,Obj]", locals={"push_infos": "Dict[Obj,Obj]", "info": "Obj"},
          raising={"self._apply_rules(rules)": ("(applied name)", "Opt[Obj]")}, props=["C06"]),
 ]
+
+
+# ---- schedule.py : the whole `Composition._connect_components` loop (C06 C04) -----------------------------------------
+# component statuses are a table by component id; what `comp.connect(time)` does to the world (helpers, caches, outputs) and
+# to the statuses is a parameter; the iteration bound of `while True` is a parameter too (running out of it is an error result)
+CONNECT_COMP = "Lean:(φ → (List (Nat × Int)) → Nat → Except Err ((List (Nat × Int)) × φ))"
+SPECS += [
+    dict(lean="connect_components", path="schedule.py", qual="Composition._connect_components", group="Connect", type_params=["φ"],
+         loop_extras=True,
+         fields={"_components": "List[Obj]", "status": "Dict[Obj,Int]", "world": "Lean:φ"}, params={}, ignore_params=["time"],
+         extra_params={"connectComp": CONNECT_COMP, "fuelN": "Lean:Nat"}, ret="Unit", fuel={"True": "lean:fuelN"},
+         consts={"comp.status": ("((Py.dictGet? self_status comp).getD (-1))", "Int"), "ComponentStatus.CONNECTED": ("(0 : Int)", "Int"),
+                 "ComponentStatus.CONNECTING": ("(1 : Int)", "Int"), "ComponentStatus.CONNECTING_IDLE": ("(2 : Int)", "Int")},
+         calls={"comp.connect": {"lean": "connectComp", "args": ["self.world", "self.status", "comp"], "stmt": True,
+                                 "updates": ["status", "world"]}},
+         drop_calls=["self._check_status"], drop_assign=["unconn"], props=["C06", "C04"]),
+]
